@@ -40,6 +40,18 @@ CLAIMED = {
     text="Lean theorem: for the Poly1305 buffering model, any list of update chunks (empty, straddling, exactly filling) gives the one-shot result of the concatenation, and equals the RFC value. Tied to the code and extended to the other incremental interfaces by exhaustive 2-way/3-way split enumeration and random k-way partitions, impl incremental vs libsodium one-shot vs Lean spec.",
     design="§7 C08", technique="Lean 4 proof (induction over the chunk list with a buffering invariant) + exhaustive split enumeration",
     note="sha2's buffering (SHA-512/HMAC/incremental signing) is not modelled; differential only."),
+ "C09": dict(
+    text="Lean theorems about dryoc's Argon2 glue (parameter validation iff, the (opslimit, memlimit) → (t, m) conversion, instance arithmetic m′ = 4p⌊m/4p⌋, index_alpha never under/overflows and equals the RFC 9106 §3.4 mapping, prev/curr offsets stay in the lane, addressing mode, H′ chunk arithmetic) and base64; the hand model of argon2.rs is validated against the Lean RFC 9106 spec. Tied to the code by impl vs model vs Lean RFC 9106 spec vs libsodium over output lengths 16..1100, password lengths, t=1..6, memory sizes incl. non-multiples of 4 KiB, salts 8..64, rejected points.",
+    design="§7 C09", technique="Lean 4 proof (validation, index/offset arithmetic, H′ structure) + differential correspondence impl/model/RFC-9106 Lean spec/libsodium",
+    note="full loop-nest equivalence model = RFC recurrence may be partial (named _partial); BLAKE2b compression trusted as specified."),
+ "C10": dict(
+    text="Lean theorems over the string model (encoder, field-by-field parser as written, needs-rehash, verify): base64 and decimal round trips, parse∘encode = id for well-formed parameters of both algorithms (incl. salts whose base64 starts with 'argon2'), encode∘parse = id on canonical strings, needs_rehash = false iff both costs match. Tied to the code by strings produced by dryoc (salt fixed through hook H3, object API with salts 8..64 / hashes 16..128) verified by libsodium and vice versa, parse→re-encode, needs-rehash grid.",
+    design="§7 C10", technique="Lean 4 proof (round-trip theorems for encoder/parser, needs-rehash iff) + differential correspondence impl/model/libsodium",
+    note="base64 crate and str::parse::<u32> are modelled (Spec.Base64, parseU32), Argon2 is the Lean RFC spec."),
+ "C11": dict(
+    text="Lean theorems over a data-flow model of every randomised entry point: each consumes exactly its documented number of bytes from the current position of the entropy stream (no constant, no reuse; consecutive operations use disjoint parts), and the random component of its result is that draw (or contains it), so distinct draws give distinct results. Tied to the code by hooked runs (hook H3: result and sizes of draws compared with the model, incl. degenerate all-zero entropy) and a statistical oracle on the OS generator (no repeat, no all-zero, no constant byte position over hundreds of calls; false-alarm < 2^-100).",
+    design="§7 C11", technique="Lean 4 proof (entropy data-flow model: draws_n, disjointness, component-is-draw) + hooked differential run + statistical oracle",
+    note="the OS generator's quality is trusted."),
  "C12": dict(
     text="Lean theorems: derive rejects exactly the lengths outside 16..=64; the derived subkey is BLAKE2b with digest length = requested length, key = master key, salt = le64(id)‖0^8, personal = ctx‖0^8 (libsodium's construction); (length, id, context) ↦ parameter block is injective. Tied to the code by impl vs model vs Lean BLAKE2b spec vs libsodium on all 49 lengths × boundary ids.",
     design="§7 C12", technique="Lean 4 proof (range check iff, parameter-block injectivity) + differential correspondence impl/model/spec/libsodium",
